@@ -228,6 +228,22 @@ MarkInsideLine == \A bc \in 0..6, ec \in 0..6, linelen \in 1..6, same \in BOOLEA
    r[2] > r[1] /\ ((bc < linelen /\ (~same \/ (bc <= ec /\ ec <= linelen))) => r[2] <= linelen)
 EmitMarkTable == \A bc \in 0..6, ec \in 0..6, linelen \in 1..6, same \in BOOLEAN :
    PrintT("MARK " \o ToJson([bc |-> bc, ec |-> ec, linelen |-> linelen, same |-> same, range |-> MarkRange(0, bc, IF same THEN 0 ELSE 1, ec, linelen)]))
+\* the own parser's quotation of a rejected text (ErrorCollector.summary): "(N) >>> <line>" and, under it, the
+\* carets shifted by the width of that prefix - which grows with the number of digits of N
+RECURSIVE Fill(_, _)
+Fill(ch, n) == IF n <= 0 THEN "" ELSE ch \o Fill(ch, n - 1)
+RECURSIVE Width(_)
+Width(n) == IF n < 10 THEN 1 ELSE 1 + Width(n \div 10)
+OwnQuotation(n, line, bc, ec) ==
+  << "(" \o ToString(n) \o ") >>> " \o line,
+     Fill(" ", Width(n) + 7 + bc) \o Fill("^", IF ec - bc < 1 THEN 1 ELSE ec - bc) >>
+\* the carets stand under columns bc..ec of the quoted line, whatever the line number
+CaretsUnderToken == \A n \in {1, 9, 10, 99, 100, 1000}, bc \in 0..3, w \in 0..2 :
+   LET q == OwnQuotation(n, "abcdef", bc, bc + w)
+       prefix == "(" \o ToString(n) \o ") >>> " IN
+   q[2] = Fill(" ", Width(n) + 7) \o Fill(" ", bc) \o Fill("^", IF w < 1 THEN 1 ELSE w) /\ q[1] = prefix \o "abcdef"
+EmitOwnTable == \A n \in {1, 2, 9, 10, 11, 99, 100, 101, 1000}, bc \in {0, 1, 4, 6}, w \in 0..2 :
+   PrintT("OWNQ " \o ToJson([n |-> n, bc |-> bc, ec |-> bc + w, q |-> OwnQuotation(n, "b = = 22", bc, bc + w)]))
 RECURSIVE Annot(_)
 Annot(n) ==
   LET m == [n EXCEPT !.s = n.s] @@ [q |-> Mark(n.b, n.e)] IN
